@@ -162,35 +162,7 @@ def pot_origin(f, du, local, depth=0):
 
 
 def rule_r(F):
-    res = []
-    T = table(F)
-    from rules.c12 import backshift_instances, hu_end_line
-    for f in T.fns:
-        ws = T.slot_writes(f)
-        vac = [w for w in ws if w["kind"] == "vacate" and not w["in_loop"]]
-        if not vac or f.name in ("clear",):
-            continue
-        key = "C13/R/%s/probe-chain-repaired" % f.name
-        # the loop that moves the following entries back: in f or in a private function f calls
-        g, call = tb.shifting_function(T, f)
-        if g is None:
-            res.append(bad("C13.R", key, f.loc(vac[0]["expr"]["ln"]),
-                           "HandleTable::%s just marks the slot EMPTY: every handle that had probed past this slot is cut off from its probe "
-                           "chain and is no longer found (and can be inserted a second time)" % f.name))
-            continue
-        if g is f:
-            res.append(ok("C13.R", key, f.loc(vac[0]["expr"]["ln"]), "removal back-shifts the following entries of the probe chain"))
-        else:
-            after = [w for w in vac if w["expr"]["ln"] >= hu_end_line(call)]
-            if not after:
-                res.append(bad("C13.R", key, f.loc(vac[0]["expr"]["ln"]),
-                               "HandleTable::%s marks the slot EMPTY before %s shifts the following entries: the hole the shifting leaves "
-                               "behind is never emptied" % (f.name, g.name)))
-            else:
-                status, msg, ln = tb.final_hole_verdict(T, f, g, call, after)
-                mk = {"ok": ok, "bad": bad, "undecided": undecided}[status]
-                res.append(mk("C13.R", key, f.loc(ln), msg))
-        res.extend(backshift_instances(g, "C13.R", "C13/R/%s" % f.name, power_of_two=True, F=F, slot_tys=T.slot_tys))
+    res = tb.rule_backshift(table(F), F, "R", "probe-chain-repaired", power_of_two=True)
     if not res:
         raise AnchorMissing("single-slot removal in HandleTable")
     return res
